@@ -23,3 +23,130 @@ def _register(opcode, variant, shards, expect):
 for (_op, _var, _sh, _exp) in PLAN:
     if "raised" in _exp:
         _register(_op, _var, _sh, _exp)
+
+
+# ---------------------------------------------------------------- value operations
+from . import valueops  # noqa: E402
+from . import common as C  # noqa: E402
+from ..vars import Violation  # noqa: E402
+
+
+def _register_value(opcode, shards):
+    def ob(v, _opcode=opcode):
+        valueops.step(v, _opcode, "frame")
+    ob.__doc__ = "One step of Property.%s: if it raises, dtype and values are unchanged." % opcode
+    obligation("C06", "values_" + opcode, shards=shards, budget={"quick": 300, "thorough": 900},
+               expect=["raised"], bounds="see C05: same pre-states and arguments, frame assertion only")(ob)
+
+
+for _op in ("set_values", "set_dtype", "append", "extend", "insert", "setitem", "merge"):
+    _register_value(_op, 17)
+
+
+BAD_CARDS = ["bad", (2, 1), -1, (1, 2, 3), 1.5, ("a", 1)]
+
+
+@obligation("C06", "ctor_invalid_argument", shards=9, budget={"quick": 240, "thorough": 600},
+            expect=["raised", "succeeded"],
+            bounds="universe 1 Document + 2 Sections + 1 Property (symbolic names len 1); constructor of a Section or Property "
+                   "with parent= any container and one argument possibly invalid: cardinality from a pool of malformed shapes or a "
+                   "symbolic (a, b) pair of unbounded ints, unconvertible value, malformed id, clashing name")
+def ctor_invalid_argument_ob(v):
+    """A constructor that raises leaves no half-constructed object in the parent."""
+    import odml
+    uni = C.build_universe(v, 1, 2, 1, name_len=1, id_names=False, name_minlen=1)
+    objs = uni.all
+    before = C.snapshot(objs)
+    cont = v.pick("cont", uni.containers)
+    name = v.str("newname", 1, minlen=1)
+    what = v.choice("what", 5)
+    kw = {}
+    if what == 0:
+        kw["card"] = v.pick("badcard", BAD_CARDS)
+    elif what == 1:
+        kw["card"] = (v.opt_int("a"), v.opt_int("b"))
+    elif what == 2:
+        kw["oid"] = v.pick("oid", ["garbage", "1f3c8b2e-5d4a-4c6b-9e7f-0a1b2c3d4e5", None])
+    elif what == 3:
+        kw["values"] = v.pick("values", ["abc", [1, "x"], "2020-13-01"])
+        kw["dtype"] = v.pick("dtype", ["int", "date", "2-tuple"])
+    make_section = v.bool("section")
+    try:
+        if make_section:
+            cardname = v.pick("cardname", ["sec_cardinality", "prop_cardinality"])
+            args = {cardname: kw["card"]} if "card" in kw else {}
+            if "oid" in kw:
+                args["oid"] = kw["oid"]
+            new = odml.Section(name=name, type="t", parent=cont, **args)
+        else:
+            args = {}
+            if "card" in kw:
+                args["val_cardinality"] = kw["card"]
+            if "oid" in kw:
+                args["oid"] = kw["oid"]
+            if "values" in kw:
+                args["values"] = kw["values"]
+                args["dtype"] = kw["dtype"]
+            new = odml.Property(name=name, parent=cont, **args)
+    except Exception as exc:  # noqa
+        v.classify(exc)
+        v.label("raised")
+        v.label("raised:" + type(exc).__name__)
+        diff = C.snapshot_diff(before, C.snapshot(objs))
+        if diff is not None:
+            v.note("exception", type(exc).__name__)
+            raise Violation("constructor raised %s but %s" % (type(exc).__name__, diff))
+        return
+    v.label("succeeded")
+    v.check(new.parent is cont, "constructor succeeded but the object is not attached to the given parent")
+
+
+@obligation("C06", "setters_invalid", shards=9, budget={"quick": 200, "thorough": 600},
+            expect=["raised"],
+            bounds="attached Section/Property/Document; one setter with an invalid argument: cardinalities (malformed pool or symbolic pair), "
+                   "new_id(malformed), Document.date = bad text, uncertainty = text, rename to a sibling's name, parent = wrong type")
+def setters_invalid_ob(v):
+    """A refused attribute assignment changes nothing anywhere in the document."""
+    uni = C.build_universe(v, 1, 2, 1, name_len=1, id_names=False, name_minlen=1)
+    objs = uni.all
+    before = C.snapshot(objs)
+    what = v.choice("what", 8)
+    try:
+        if what == 0:
+            sec = v.pick("sec", uni.secs)
+            card = v.pick("card", BAD_CARDS) if v.bool("pool") else (v.opt_int("a"), v.opt_int("b"))
+            if v.bool("secs"):
+                sec.sec_cardinality = card
+            else:
+                sec.prop_cardinality = card
+        elif what == 1:
+            prop = v.pick("prop", uni.props)
+            prop.val_cardinality = v.pick("card", BAD_CARDS) if v.bool("pool") else (v.opt_int("a"), v.opt_int("b"))
+        elif what == 2:
+            obj = v.pick("obj", objs)
+            obj.new_id(v.pick("oid", ["garbage", "1f3c8b2e-5d4a-4c6b-9e7f-0a1b2c3d4e5", "{}"]))
+        elif what == 3:
+            uni.docs[0].date = v.pick("date", ["garbage", "2020-13-01", "2020-01-01 10:00:00", 5])
+        elif what == 4:
+            prop = v.pick("prop", uni.props)
+            prop.uncertainty = v.pick("unc", ["abc", "1,5", [1]])
+        elif what == 5:
+            obj = v.pick("obj", uni.secs + uni.props)
+            other = v.pick("other", uni.secs + uni.props)
+            obj.name = other.name
+        elif what == 6:
+            obj = v.pick("obj", uni.secs + uni.props)
+            obj.parent = v.pick("badparent", [5, "doc", uni.props[0], uni.docs[0]])
+        else:
+            prop = v.pick("prop", uni.props)
+            prop.dtype = v.pick("dtype", ["integer", "date", "3-tuple", ""])
+    except Exception as exc:  # noqa
+        v.classify(exc)
+        v.label("raised")
+        v.label("raised:" + type(exc).__name__)
+        diff = C.snapshot_diff(before, C.snapshot(objs))
+        if diff is not None:
+            v.note("exception", type(exc).__name__)
+            raise Violation("setter raised %s but %s" % (type(exc).__name__, diff))
+        return
+    v.label("succeeded")
